@@ -1,10 +1,10 @@
 (* Extraction of the hand-written executable model of C10 (ExtrOcamlBasic only). *)
 From Coq Require Import ZArith List Extraction ExtrOcamlBasic.
-From C10 Require Machine Merge ArrayShift MapModel FastMerge.
+From C10 Require Machine Merge ArrayShift MapModel FastMerge BulkOps FastPtr.
 Separate Extraction
   Machine.relocate Machine.replace Machine.replace_relocate Machine.nothrow_reloc
   Merge.hmerge Merge.tmerge Merge.lmerge Merge.tree_merge_to Merge.src_items Merge.tsrc_items
   Merge.extract_at Merge.insert_holder Merge.holder_move Merge.holder_clear
   ArrayShift.run ArrayShift.insert_prog ArrayShift.remove_prog ArrayShift.mk_arr
   MapModel.p_relocate MapModel.p_replace MapModel.p_replace_relocate MapModel.pextract_at MapModel.pinsert_holder
-  MapModel.pholder_clear MapModel.pmerge FastMerge.tree_merge_to_eq.
+  MapModel.pholder_clear MapModel.pmerge FastMerge.tree_merge_to_eq BulkOps.insert_range BulkOps.remove_pred FastPtr.merge_fast_ptr.
